@@ -33,7 +33,9 @@ def spec_formula(n, E, okind, dflag, share):
     indeg = [z3.Sum(*[z3.If(E[u][v], one, zero) for u in range(n)]) for v in range(n)]
     outdeg = [z3.Sum(*[z3.If(E[u][v], one, zero) for v in range(n)]) for u in range(n)]
     bad = []
-    if share:
+    if share and share[0] == "samename":
+        pass  # two DISTINCT elements that merely carry the same name are not a duplicated element
+    elif share:
         if share[0] == "link":
             (u, v), (x, y) = share[1], share[2]
             bad.append(z3.And(E[u][v], E[x][y]))
@@ -74,7 +76,7 @@ def build_and_validate(n, pairs, okind, dflag, share, flagvals=None):
             if share and share[0] == "link" and (u, v) == share[2] and share[1] in links:
                 lk = links[share[1]]
             else:
-                lk = M.Link(1, 2, 1.0, 180, 30, 100, 1.8, name=f"L{u}{v}")
+                lk = M.Link(1, 2, 1.0, 180, 30, 100, 1.8, name="samename" if (share and share[0] == "samename") else f"L{u}{v}")
             links[(u, v)] = lk
             net.add_link(nodes[u], lk, nodes[v])
     # validation is also called between the construction phases (results ignored): a lookup cached by an
@@ -91,6 +93,8 @@ def build_and_validate(n, pairs, okind, dflag, share, flagvals=None):
             else:
                 o = (M.Origin(name=f"O{i}") if (i % 2 == 0) else M.MainstreamOrigin(name=f"O{i}")) if okind[i] == 1 else \
                     (M.MeteredOnRamp(2000, name=f"O{i}") if (i % 2 == 0) else M.SimplifiedMeteredOnRamp(2000, name=f"O{i}"))
+            if share and share[0] == "samename":
+                o.name = "samename"
             origins[i] = o
             net.add_origin(o, nodes[i])
     try:
@@ -104,6 +108,8 @@ def build_and_validate(n, pairs, okind, dflag, share, flagvals=None):
                 d = dests[share[1]]
             else:
                 d = M.Destination(name=f"D{i}") if i % 2 == 0 else M.CongestedDestination(name=f"D{i}")
+            if share and share[0] == "samename":
+                d.name = "samename"
             dests[i] = d
             net.add_destination(d, nodes[i])
     ok, msgs = net.is_valid(raises=False)
@@ -123,7 +129,7 @@ def work(item):
     E = [[z3.Bool(f"e_{u}_{v}") if (u, v) in pairs else z3.BoolVal(False) for v in range(n)] for u in range(n)]
     spec = spec_formula(n, E, okind, dflag, share)
     out = {"item": str(item), "paths": 0, "queries": 0, "violations": [], "inconclusive": [], "samples": [], "valid_paths": 0}
-    if share and share[0] in ("origin", "dest"):
+    if share and share[0] in ("origin", "dest") and len(share) == 3:
         # the shared object must be attachable to both nodes
         kinds = okind if share[0] == "origin" else dflag
         if not (kinds[share[1]] and kinds[share[2]]) or (share[0] == "origin" and okind[share[1]] != okind[share[2]]):
@@ -188,7 +194,7 @@ def replay(rec):
 
 
 def shares(n, pairs):
-    S = [None]
+    S = [None, ("samename",)]
     if len(pairs) >= 2:
         S.append(("link", pairs[0], pairs[-1]))
         if len(pairs) >= 3:
